@@ -57,13 +57,6 @@ Definition agrees (c : case) : bool :=
   | _, _ => false
   end.
 
-Fixpoint all_P_search (rules : list rule) (qs : list rule) (answers : list (option (list rule))) : bool :=
-  match qs, answers with
-  | [], [] => true
-  | q :: qs', a :: as' => P_search rules (fst q) (snd q) a && all_P_search rules qs' as'
-  | _, _ => false
-  end.
-
 Definition P (c : case) : bool :=
   match c with
   | CSearch rules _ qs answers => all_P_search rules qs answers
